@@ -126,6 +126,9 @@ fn main_c11(tier: &str, seed: u64, replay: Option<&str>) -> i32 {
         vec!["--no-gitconfig".into(), "--width".into(), "120".into(), "--side-by-side".into(), "--line-numbers".into()],
         vec!["--no-gitconfig".into(), "--width".into(), "120".into(), "--syntax-theme".into(), "none".into(), "--line-buffer-size".into(), "2".into()],
         vec!["--no-gitconfig".into(), "--width".into(), "120".into(), "--color-only".into()],
+        // everything that decorates lines with per-line or per-file extras
+        vec!["--no-gitconfig".into(), "--width".into(), "120".into(), "--hyperlinks".into(), "--line-numbers".into(), "--navigate".into(), "--relative-paths".into()],
+        vec!["--no-gitconfig".into(), "--width".into(), "120".into(), "--side-by-side".into(), "--hyperlinks".into(), "--diff-so-fancy".into()],
     ];
     // every configuration with ordinary lines and with over-long lines
     // every configuration with ordinary lines, with over-long lines, and with one file per hunk
